@@ -21,6 +21,8 @@ CIDS = {
     "valid": "D,Format,Delimited\nD,Line delimiter,LF\nF,id,,,,Integer,0...99\nF,name,,,1...5\nC,unique id,IsUnique,id\n",
     "header1": "D,Format,Delimited\nD,Line delimiter,LF\nD,Header,1\nF,id,,,,Integer,0...99\nF,name,,,1...5\nC,unique id,IsUnique,id\n",
     "header2": "D,Format,Delimited\nD,Line delimiter,LF\nD,Header,2\nF,id,,,,Integer,0...99\nF,name,,,1...5\nC,unique id,IsUnique,id\n",
+    # a verdict that falls at the end of the data and depends on how many rows the limit let through (also: none at all)
+    "count": "D,Format,Delimited\nD,Line delimiter,LF\nF,id,,,,Integer,0...99\nF,name,,,1...5\nC,unique id,IsUnique,id\nC,enough ids,DistinctCount,id >= 3\n",
     "rejected": "D,Format,Delimited\nF,id,,,,Integer,9...0\nF,name\n",
     "nofields": "D,Format,Delimited\nD,Line delimiter,LF\n",  # a data format but no field: rejected by the API, so exit code 1
     "nofields+check": "D,Format,Delimited\n,a comment\nC,c,IsUnique,id\n",
@@ -189,7 +191,7 @@ def all_cases(tier="quick"):
                 if cid != "valid" and (until not in (None, 2) or len(files) > 2):
                     continue
                 cases.append({"cid": cid, "files": files, "until": until})
-    for cid in ("header1", "header2"):  # the limit counts header rows, on the command line as in the API
+    for cid in ("header1", "header2", "count"):  # the limit counts header rows, on the command line as in the API
         for files in [list(p) for n in range(0, 4 if thorough else 3) for p in itertools.product(KINDS, repeat=n)]:
             for until in UNTILS + [4] + ([5, 6] if thorough else []):
                 cases.append({"cid": cid, "files": files, "until": until})
